@@ -169,9 +169,12 @@ def enum_cases(tier):
             for intercept in (True, False):
                 yield k, {"terms": [list(t) for t in fam], "intercept": intercept}
                 k += 1
-    if tier == "thorough":
-        terms4 = subsets(["f", "g", "h", "k"])
-        for mask in range(1, 2 ** 15):
+    terms4 = subsets(["f", "g", "h", "k"])
+    # four two-level factors: every family of at most three terms in the quick tier, every family in thorough
+    for mask in range(1, 2 ** 15):
+        if tier != "thorough" and bin(mask).count("1") > 3:
+            continue
+        if True:
             fam = [terms4[j] for j in range(15) if mask >> j & 1]
             for intercept in (True, False):
                 yield k, {"terms": [list(t) for t in fam], "intercept": intercept, "two_level": True}
